@@ -33,3 +33,83 @@ def check(ctx):
     ctx.floor('R04.1', 'decision rows', n, 300)
     from . import c03
     c03.r_binders(ctx, 'R04.3')
+    r_zip(ctx, 'R04.2')
+
+
+def _coll(v):
+    """Underlying collection of an iterator expression (strip iter/into_iter/map/cloned adapters)."""
+    from ..core import walk
+    while is_call(v) and v[1].split('::')[-1] in ('iter', 'into_iter', 'map', 'cloned', 'copied', 'iter_mut') and v[2]:
+        v = v[2][0]
+    return v
+
+
+ZIP_REVIEWED = {
+    "<value::Destructor<'_> as miniscript::iter::TreeLike>::as_node": 'elements come from destruct::as_tuple(value, tys.len()) / as_array / as_list, which return exactly the requested number of elements (Unfolder), or are zipped with repeat()',
+}
+
+
+def r_zip(ctx, rid):
+    ctx.rule(rid, 'no silent truncation: every Iterator::zip of two finite sequences in the front end is preceded on its path by an equality test of their lengths (in the function, or in every caller for zipped parameters), or one side is repeat()')
+    fx = ctx.facts()
+    n = 0
+    for path, fn in sorted(fx.F.items()):
+        if fn.macro:
+            continue
+        if not any(c.endswith('::zip') for bid, c, t in fn.calls()):
+            continue
+        if path in ZIP_REVIEWED:
+            n += 1
+            ctx.ob(rid, 'zip:reviewed:' + path, True, 'zip in %s: %s' % (path, ZIP_REVIEWED[path]), fn.where())
+            continue
+        seen = {}
+        for kind, p, ret in explore(ctx, fn, max_visits=1):
+            if p is None:
+                continue
+            for e in event_calls(p, 'zip'):
+                a, b = _coll(e[2][0]), _coll(e[2][1])
+                sa_, sb_ = S(a), S(b)
+                key = 'zip:%s:%s~%s' % (path, sa_[:60], sb_[:60])
+                ok = False
+                why = ''
+                if is_call(b, 'repeat') or is_call(a, 'repeat'):
+                    ok, why = True, 'one side is repeat()'
+                else:
+                    for w, l in p.conds[:e[5]]:
+                        c, truth = guards.canon_cond(w, l)
+                        if truth == 'T' and c.startswith('Eq(') and ('len(%s)' % sa_ in c) and ('len(%s)' % sb_ in c or sb_ in c):
+                            ok, why = True, 'guarded by ' + c
+                    if not ok and a[0] == 'param' and b[0] == 'param':
+                        # every caller must have passed `check(len == len)?` on the same two arguments
+                        callers = fx.callers_of(path)
+                        okc = bool(callers)
+                        for cf, bid, cc, t in callers:
+                            good = False
+                            for k2, p2, r2 in explore(ctx, cf, max_visits=1):
+                                for e2 in event_calls(p2, path):
+                                    x, y = e2[2][a[1]], e2[2][b[1]]
+                                    chk = [t0 for t0 in p2.events if t0[0] == 'try' and calls_in(t0[1], 'check_argument_types') and p2.events.index(t0) < p2.events.index(e2)]
+                                    if any(calls_in(t0[1], 'check_argument_types')[0][2][:2] == (x, y) for t0 in chk):
+                                        good = True
+                                    else:
+                                        good = False
+                                        break
+                                else:
+                                    continue
+                                if not good:
+                                    break
+                            okc = okc and good
+                        if okc:
+                            ok, why = True, 'every caller checks the two lengths with check_argument_types(same arguments)? first'
+                            lt = ctx.facts().fn('<ast::Call as ast::AbstractSyntaxTree>::analyze::check_argument_types')
+                            rows = guards.decision_table(ctx, lt)
+                            ok = any(r['out'].startswith('ok') and any(c.startswith('Eq(len(') and c.endswith('=T') for c in r['conds']) for r in rows)
+                seen[key] = seen.get(key, True) and ok
+                if not ok:
+                    seen[key + '#why'] = 'zip(%s, %s) reached without a length equality test on path [%s]' % (sa_, sb_, cond_str(p.conds[:e[5]])[:200])
+        for key, ok in seen.items():
+            if key.endswith('#why'):
+                continue
+            n += 1
+            ctx.ob(rid, key, ok, 'zipped sequences have equal length (or one is infinite)', fn.where(), seen.get(key + '#why'))
+    ctx.floor(rid, 'zip sites', n, 5)
